@@ -117,6 +117,7 @@ struct Global {
     double p_clockfail_boot = 0; // CLOCK_BOOTTIME/MONOTONIC reads fail (EINVAL): only harnesses whose code is documented to tolerate it
     uint32_t access_mean = 0; // flavour B
     int backtrace_mode = 0;
+    uint64_t bt_ctr = 0; // backtrace mode 5: calls so far in this run
     uint64_t soft_budget = 0, hard_budget = 0;
     bool tail = false;
     uint64_t steps = 0;
@@ -658,6 +659,7 @@ void begin(const Plan &plan) {
     G.p_clockjump = permille(plan, "p_clockjump", 0);
     G.p_clockfail_boot = permille(plan, "p_clockfail_boot", 0);
     G.backtrace_mode = (int)plan.get("backtrace_mode", 0);
+    G.bt_ctr = 0;
     G.soft_budget = (uint64_t)plan.get("soft_budget", 200000);
     G.hard_budget = (uint64_t)plan.get("hard_budget", 2000000);
     G.cpu_cost = (uint64_t)plan.get("cpu_cost", 100);
@@ -1114,6 +1116,9 @@ int __wrap_backtrace(void **buf, int n) {
     int got = __real_backtrace(buf, n);
     if (mode == 2 && got > 1) got = 1;
     if (mode == 3 && got > 2) got = 2;
+    if (mode == 5 && got > 0) { // every call comes from a call site of its own: thousands of distinct stacks in one run
+        buf[got > 2 ? 2 : got - 1] = (void *)(uintptr_t)(0x10000000ull + 16 * G.bt_ctr++);
+    }
     if (mode == 4 && got > 0) { // a very deep call stack: as many frames as the caller has room for (the real frames, repeated)
         int base = got;
         while (got < n) { buf[got] = buf[got % base]; got++; }
